@@ -32,6 +32,11 @@ func canon(v ssa.Value) ssa.Value {
 			if n != 0 {
 				return v
 			}
+			// written once is not yet "never changes": a read in the same function that the one
+			// store does not dominate may still see the zero value (var s []T; for … { s = append(s, x) }; use(s))
+			if ws[0].Parent() == x.Parent() && !dominates(ws[0], x) {
+				return v
+			}
 			v = ws[0].Val
 		case *ssa.ChangeType:
 			v = x.X
